@@ -31,8 +31,8 @@ type c07Burst struct {
 
 func c07World(r *hx.Run) (*W, []c07Inst) {
 	specs := []struct {
-		s string
-		p int64
+		s     string
+		p     int64
 		store bool
 	}{{"1s", 1, false}, {"2s", 2, false}, {"5m", 300, false}, {"0s", 300, false}, {"-3s", 300, false}, {"500ms", 300, false}, {"90s", 90, false}, {"2s", 2, true}, {"5m", 300, true}}
 	ports := hx.FreePorts(len(specs))
